@@ -29,8 +29,10 @@ var Check = &ev.Check{
 		"schedules: for each program every map-iteration order at every `range`-over-map execution in package compile (all n! orders for n<=4 keys) with at most 1 (quick) / 2 (thorough) deviating range executions per compile, and every permutation of the definitions within each file. " +
 		"A state is a node of the choice tree (a prefix of order choices); a transition is one order choice; every execution is a run of the real compiler built from /repo's tree. " +
 		"Oracle: all executions of one program agree on success/failure and on the canonical dump of the module graph, and on success the dump equals ref/resolve's. distinct_nontrivial = programs with at least one reference between definitions.",
-	Run:    run,
-	Budget: func(t string) time.Duration { return map[string]time.Duration{"quick": 4 * time.Minute, "thorough": 25 * time.Minute}[t] },
+	Run: run,
+	Budget: func(t string) time.Duration {
+		return map[string]time.Duration{"quick": 4 * time.Minute, "thorough": 25 * time.Minute}[t]
+	},
 	Assumptions: []string{
 		"the overlay's range rewrite preserves semantics (validated per run: default-order results equal the un-instrumented semantics by construction of sorted order being one legal map order)",
 		"programs beyond 3 definitions / the stated reference alphabet are not covered",
